@@ -10,22 +10,18 @@
   * `C17_latest`: "directory index" counts the directories of the path that exist; a file counts as a
     version of `ns` when `entryVersion` accepts its name (`C17_candidate_names`: for `ns-v.typelib`
     with no '-' in `v` that is "parse_version accepts v"); every *.typelib file is a valid typelib.
-  * `C17_inv_partial` / `C17_require_loaded`: (1) `staleKey = false`: no EAGER require / load of a LAZILY loaded
-    namespace found a typelib with another header than the lazily loaded one (the C code does not look at the lazy
-    entry: it searches again, skips the conflict check and registers what it finds under the OLD key; witness
-    `C17_eager_over_lazy_counterexample`).  Transitions that find the same contents again are covered.
-    (2) no load-from-memory of a namespace registered at ANOTHER version (witness
-    `C17_load_conflict_counterexample`: the C code replaces the typelib), (3) `Ranked`: no namespace depends on
-    itself through recorded dependencies (cycles are invalid input: the C code recurses without bound).
-    Histories are otherwise arbitrary.
-  * `C17_load_loaded`: as `C17_inv_partial` for one eager load-from-memory (guard (2), acyclic header).
+  * `C17_inv_partial` / `C17_require_loaded` / `C17_load_loaded`: (1) `staleKey = false`: no EAGER require / load of
+    a LAZILY loaded namespace found a typelib with another header than the lazily loaded one (the C code does not
+    look at the lazy entry: it searches again, skips the conflict check and registers what it finds under the OLD
+    key; witness `C17_eager_over_lazy_counterexample`).  Transitions that find the same contents again are covered.
+    (2) `Ranked` / `HdrRanked`: no namespace depends on itself through recorded dependencies (cycles are invalid
+    input: the C code recurses without bound).  Histories are otherwise arbitrary.
   * `C17_dependencies_exact`: the loaded typelibs are acyclic, every recorded dependency of a registered typelib
     is registered (true under the invariant when nothing is lazily loaded: `C17_deps_known`), and the model's
     recursion bound exceeds the rank of the namespace (the C code has no bound).
   * `C17_private_dir`: as `C17_exact`.
-  * `C17_conflict_mismatch_partial`: for a require WITHOUT version only the header namespace is
-    compared with the file name (witness `C17_latest_version_mismatch_counterexample`); a lazily loaded namespace
-    is only recognised as loaded when the LAZY flag is given (see (1)).
+  * `C17_conflict_mismatch_partial`: a lazily loaded namespace is only recognised as loaded when the LAZY flag is
+    given (see (1)); everything else of the statement's conflict / mismatch sentence is proved.
 -/
 import GIVerif.Lemmas.Repo
 
@@ -48,12 +44,12 @@ theorem C17_source_shape :
     ∧ Gen.Repo.envVar = "GI_TYPELIB_PATH"
     ∧ Gen.Repo.selfName.toList = selfName ∧ Gen.Repo.selfVersion.toList = selfVersion
     ∧ Gen.Repo.repoShape =
-      ["status", "return-registered", "conflict", "explicit", "latest", "notfound", "ns-check",
-       "version-check", "register", "eager-first", "eager-check", "lazy-second", "not-lazy-null", "lazy-check",
+      ["status", "return-registered", "conflict", "explicit", "tmp-version-requested", "latest", "notfound",
+       "ns-check", "version-check-name", "register", "eager-first", "eager-check", "lazy-second", "not-lazy-null", "lazy-check",
        "cmp:v1_major>v2_major:1;v2_major>v1_major:-1;v1_minor>v2_minor:1;v2_minor>v1_minor:-1",
        "cand:result > 0;result < 0;c1->path_index == c2->path_index;c1->path_index > c2->path_index",
        "prepend:g_slist_prepend", "init:g_slist_prepend,g_slist_prepend,g_slist_reverse", "sort:g_slist_sort",
-       "dep-require:dependency_version",
+       "dep-require:dependency_version", "load:status,conflict,register",
        "transition:deps-first,lookup-lazy-key,steal,else-build-key,insert-eager"] := by
   decide
 
@@ -295,8 +291,9 @@ theorem C17_conflict_mismatch_partial (fs : FS) (fuel : Nat) (s : Repo) (ns : St
 
 /-- The statement's "a file whose contents name another namespace OR VERSION than its file name is
     refused", for the elected latest file, "a version conflict is reported" for load-from-memory, and the
-    same for a lazily loaded namespace whatever the flags of the second require: all three FAIL on the
-    unchanged code (witnesses below); kept as the full statement. -/
+    same for a lazily loaded namespace whatever the flags of the second require.  The first two clauses
+    hold (clauses 6 and 7 of `C17_conflict_mismatch_partial`); the third FAILS on the unchanged code
+    (witness below); kept as the full statement. -/
 def C17_conflict_mismatch_full : Prop :=
   (∀ (fs : FS) (fuel : Nat) (s : Repo) (ns : Str) (lazy b : Bool) (path : List Str) (c : Cand),
     getRegisteredStatus s ns none lazy = .absent b → findLatest fs ns path = some c →
@@ -308,33 +305,6 @@ def C17_conflict_mismatch_full : Prop :=
   (∀ (fs : FS) (fuel : Nat) (s : Repo) (ns : Str) (lazy : Bool) (path : List Str) (l : Loaded) (v : Str),
     lookupTbl s.typelibs ns = none → lookupTbl s.lazy ns = some l → l.tl.hdr.ver ≠ v →
     requireInternal fs (fuel + 1) s ns (some v) lazy path = (s, .error .versionConflict))
-
-def fooAs20 : FS := [("/d".toList, [⟨"Foo-2.0.typelib".toList, ⟨"Foo".toList, "1.9".toList, []⟩⟩])]
-
-/-- d/Foo-2.0.typelib containing version 1.9 is loaded by `require Foo` (replayed on the real
-    library: corpus/C17/pending_findings.json). -/
-theorem C17_latest_version_mismatch_counterexample :
-    (requireInternal fooAs20 1 (Repo.init ["/d".toList]) "Foo".toList none false ["/d".toList]).2
-      = .ok ⟨0, ⟨"Foo".toList, "1.9".toList, []⟩⟩ ∧
-    (findLatest fooAs20 "Foo".toList ["/d".toList]).map (·.version) = some "2.0".toList := by
-  decide
-
-def barLoaded : Repo :=
-  { typelibs := [⟨"/d/Bar-1.0.typelib".toList, ⟨0, ⟨"Bar".toList, "1.0".toList, []⟩⟩⟩,
-                 ⟨"/d/Foo-1.0.typelib".toList, ⟨1, ⟨"Foo".toList, "1.0".toList, ["Bar-1.0".toList]⟩⟩⟩],
-    lazy := [], nextId := 2, searchPath := ["/d".toList], staleKey := false }
-
-/-- With Bar 1.0 and Foo 1.0 (depending on Bar-1.0) loaded, loading Bar 2.0 from memory succeeds and
-    REPLACES Bar: version 2.0 is reported with the path of Bar-1.0.typelib, and Foo's recorded
-    dependency Bar-1.0 is no longer loaded. -/
-theorem C17_load_conflict_counterexample :
-    (loadTypelib [] 3 barLoaded ⟨"Bar".toList, "2.0".toList, []⟩ false).2
-      = .ok ⟨2, ⟨"Bar".toList, "2.0".toList, []⟩⟩ ∧
-    getVersion (loadTypelib [] 3 barLoaded ⟨"Bar".toList, "2.0".toList, []⟩ false).1 "Bar".toList
-      = some "2.0".toList ∧
-    getTypelibPath (loadTypelib [] 3 barLoaded ⟨"Bar".toList, "2.0".toList, []⟩ false).1 "Bar".toList
-      = some "/d/Bar-1.0.typelib".toList := by
-  decide
 
 def bar12 : FS := [("/d".toList, [⟨"Bar-1.0.typelib".toList, ⟨"Bar".toList, "1.0".toList, []⟩⟩,
                                   ⟨"Bar-2.0.typelib".toList, ⟨"Bar".toList, "2.0".toList, []⟩⟩]),
@@ -357,9 +327,10 @@ theorem C17_eager_over_lazy_counterexample :
 
 theorem C17_conflict_mismatch_full_fails : ¬ C17_conflict_mismatch_full := by
   intro h
-  have := h.1 fooAs20 0 (Repo.init ["/d".toList]) "Foo".toList false false ["/d".toList]
-    ⟨0, "/d/Foo-2.0.typelib".toList, "2.0".toList, ⟨"Foo".toList, "1.9".toList, []⟩⟩
-    (by decide) (by decide) (by decide)
+  have := h.2.2 bar12 2
+    (run bar12 3 (Repo.init ["/d".toList]) [.require "Bar".toList (some "1.0".toList) true])
+    "Bar".toList false ["/d".toList] ⟨"/d/Bar-1.0.typelib".toList, ⟨0, ⟨"Bar".toList, "1.0".toList, []⟩⟩⟩
+    "2.0".toList (by decide) (by decide) (by decide)
   revert this
   decide
 
@@ -372,7 +343,8 @@ theorem C17_conflict_mismatch_full_fails : ¬ C17_conflict_mismatch_full := by
     reported for an entry is "<builtin>" or a file that exists and holds exactly that header.
     Lazy → eager transitions are INCLUDED: the entry moves to the eager table under its old source, its
     dependencies having been loaded first.
-    Hypotheses: see the header (staleKey = false, guarded loads, acyclic dependencies). -/
+    Hypotheses: see the header (staleKey = false, acyclic dependencies — `Guarded` only asks the
+    in-memory typelibs of the history to be acyclic too). -/
 theorem C17_inv_partial (fs : FS) (fuel : Nat) (rank : Str → Nat) (s : Repo) (ops : List Op)
     (hr : Ranked fs rank) (hinv : Inv fs s) (hg : Guarded fs fuel rank s ops)
     (hst : (run fs fuel s ops).staleKey = false) : Inv fs (run fs fuel s ops) :=
@@ -383,35 +355,23 @@ theorem C17_inv_init (fs : FS) (path : List Str) : Inv fs (Repo.init path) :=
   ⟨by simp [Repo.init], by simp [Repo.init], (by intro l hl; cases hl), (by intro l hl; cases hl),
    (by intro l hl; cases hl)⟩
 
-/-- The property's wording without the three exclusions (for the first one see
-    `C17_eager_over_lazy_counterexample`: version 2.0 reported with the path of Bar-1.0.typelib). -/
+/-- The property's wording without the exclusions (see `C17_eager_over_lazy_counterexample`: version
+    2.0 reported with the path of Bar-1.0.typelib). -/
 def C17_inv_full : Prop :=
   ∀ (fs : FS) (fuel : Nat) (path : List Str) (ops : List Op), Inv fs (run fs fuel (Repo.init path) ops)
 
-/-- The unguarded load breaks the invariant (dependency clause) in the model as in the library. -/
+/-- The eager require over a lazily loaded namespace breaks the invariant (source clause) in the model as
+    in the library: Bar 2.0 is registered under the path of Bar-1.0.typelib. -/
 theorem C17_inv_full_fails : ¬ C17_inv_full := by
   intro h
-  have := (h [("/d".toList, [⟨"Bar-1.0.typelib".toList, ⟨"Bar".toList, "1.0".toList, []⟩⟩,
-                             ⟨"Foo-1.0.typelib".toList, ⟨"Foo".toList, "1.0".toList, ["Bar-1.0".toList]⟩⟩])]
-    3 ["/d".toList]
-    [.require "Foo".toList (some "1.0".toList) false, .load ⟨"Bar".toList, "2.0".toList, []⟩ false]).deps
-    ⟨"/d/Foo-1.0.typelib".toList, ⟨0, ⟨"Foo".toList, "1.0".toList, ["Bar-1.0".toList]⟩⟩⟩ (by decide)
-    "Bar-1.0".toList (by decide)
-  obtain ⟨dn, dv, hsd, l, hl, h1, h2⟩ := this
-  have e : splitDep "Bar-1.0".toList = some ("Bar".toList, "1.0".toList) := by decide
-  rw [e] at hsd
-  cases hsd
-  revert hl h1 h2
-  generalize hrun : run _ _ _ _ = r
-  have : r.typelibs = [⟨"/d/Bar-1.0.typelib".toList, ⟨2, ⟨"Bar".toList, "2.0".toList, []⟩⟩⟩,
-      ⟨"/d/Foo-1.0.typelib".toList, ⟨0, ⟨"Foo".toList, "1.0".toList, ["Bar-1.0".toList]⟩⟩⟩] := by
-    rw [← hrun]; decide
-  rw [this]
-  intro hl h1 h2
-  simp only [List.mem_cons, List.not_mem_nil, or_false] at hl
-  rcases hl with rfl | rfl
-  · revert h2; decide
-  · revert h1; decide
+  have := (h bar12 3 ["/d".toList]
+    [.require "Bar".toList (some "1.0".toList) true, .require "Bar".toList (some "2.0".toList) false]).paths
+    ⟨"/d/Bar-1.0.typelib".toList, ⟨1, ⟨"Bar".toList, "2.0".toList, []⟩⟩⟩ (by decide)
+  rcases this with h | ⟨d, es, e, hd, he, hp, hh⟩
+  · revert h; decide
+  · have hall : ∀ q ∈ bar12, ∀ e ∈ q.2, ¬ ("/d/Bar-1.0.typelib".toList = buildFilename q.1 e.name ∧
+        e.hdr = ⟨"Bar".toList, "2.0".toList, []⟩) := by decide
+    exact hall _ (lookupDir_mem hd) e he ⟨hp, hh⟩
 
 /-- What the queries report is what is stored: under the invariant, for the entry `l` of namespace
     `ns` (unique), version / path / immediate dependencies are those of `l`, whose source is
